@@ -1448,6 +1448,32 @@ func c16RunCase(c c16Case) (res c16Result) {
 		c16CheckRound(&res, o1, "", "")
 		c16GroundTruth(&res, t, o1)
 
+		// a run that takes its time (every eighth tracker): the instance answers one request after 6.2 s. The cursor a
+		// later resumed import starts from must not be later than the moment this run sent its first request: what
+		// changes on the tracker while the run is going on may already have been listed
+		if c.Tracker%8 == 0 {
+			if S := newRepo(); S != nil {
+				t.SlowOnce = 6200 * time.Millisecond
+				sr := S.round("slow-run(one answer after 6.2 s)", false, nil)
+				c16CheckRound(&res, sr, "", "")
+				res.count("slow_runs", 1)
+				cur, perr := strconv.ParseInt(strings.TrimSpace(sr.CursorAfter), 10, 64)
+				switch {
+				case sr.StartErr != "" || len(sr.Errors) > 0 || sr.Log.FirstRequestAt.IsZero():
+					res.count("slow_runs_with_errors(cursor not judged)", 1)
+				case sr.CursorAfter == "":
+					res.count("slow_runs_without_cursor", 1)
+				case perr != nil:
+					res.count("slow_runs_with_unreadable_cursor", 1)
+				case cur > sr.Log.FirstRequestAt.Unix():
+					res.find("cursor-later-than-the-start-of-the-run", "%s: the error-free run sent its first request at %s; the cursor stored for the next resumed import is %s, %d s later: an issue that changed in between, after it was listed, is never listed again",
+						sr.Name, sr.Log.FirstRequestAt.UTC().Format("15:04:05"), time.Unix(cur, 0).UTC().Format("15:04:05"), cur-sr.Log.FirstRequestAt.Unix())
+				default:
+					res.count("slow_runs_with_cursor_not_later_than_their_first_request", 1)
+				}
+			}
+		}
+
 		// a process that lives on: one bridge object imports the tracker into a new repository, then imports it again
 		if L := newRepo(); L != nil {
 			ls := L.roundsSameBridge("long-lived-bridge-import", 2)
